@@ -166,7 +166,8 @@ SHAPES = [
 ]
 SHAPE_BY_NAME = {s["name"]: s for s in SHAPES}
 
-SOURCELESS = ["exec-string", "missing-file", "eval", "deleted-after-load", "truncated-after-load", "shortened-after-load"]
+SOURCELESS = ["exec-string", "missing-file", "eval", "deleted-after-load", "truncated-after-load", "shortened-after-load",
+              "untokenizable-after-load", "not-python-after-load"]
 
 
 def make_case(shape, pre, post, exc, msg, depth=1, kind="file", crlf=False):
@@ -201,7 +202,8 @@ def produce(case, root):
     msg = case["msg"]
     text = case["text"]
     path = os.path.join(root, "gen_%d.py" % n)
-    has_file = kind in ("file", "deleted-after-load", "truncated-after-load", "shortened-after-load", "ignored-middle")
+    has_file = kind in ("file", "deleted-after-load", "truncated-after-load", "shortened-after-load", "ignored-middle",
+                        "untokenizable-after-load", "not-python-after-load")
     if has_file:
         with open(path, "w", encoding="utf-8", newline="") as f:
             f.write(text)
@@ -247,6 +249,13 @@ def produce(case, root):
     elif kind == "shortened-after-load":
         with open(path, "w") as f:
             f.write("# only this line is left\n")
+    elif kind == "untokenizable-after-load":
+        # the file changed on disk and now ends inside a multi-line string: Python's tokenizer gives up on it
+        with open(path, "w") as f:
+            f.write('def fail(exc, msg):\n    text = """never closed\n    raise exc(msg)\n')
+    elif kind == "not-python-after-load":
+        with open(path, "w") as f:
+            f.write("  this is {not python (at all\n\tmixed\n   indentation ]\n")
     return caught, info
 
 
@@ -566,7 +575,7 @@ class _Failer:
 
 
 def case_class(case):
-    if case["kind"] == "shortened-after-load":
+    if case["kind"] in ("shortened-after-load", "untokenizable-after-load", "not-python-after-load"):
         return "source-changed-after-load"
     if case["kind"] != "file":
         return "source-less"
